@@ -9,6 +9,7 @@ import numpy as np
 from .. import core, findlib
 from .. import gen_replace_c05 as G
 from .. import gen_c08_exact as GX
+from .. import gen_c08_hub as GH
 from . import c05 as C5
 
 RULE = ("[ordinary streams] (a) self-replacement P→P on planted structures (all cell kinds, poses, boundary placements, all findlib patterns "
@@ -52,7 +53,12 @@ RULE = ("[ordinary streams] (a) self-replacement P→P on planted structures (al
         "substituted + another re-positioned by 0.05–0.4 Å; every tolerance 0.01…0.2; 20 % replace_fraction < 1 on the way out. "
         "Required: number replaced = number of planted copies (× fraction); after A→B no A is found; B→A finds as many; the "
         "(element, position mod lattice) multiset is restored within 4e-6 Å (rounding noise; NOT a multiple of atol). A quarter of "
-        "the stream is a self-replacement with replace_all=True judged with the same 4e-6 Å.")
+        "the stream is a self-replacement with replace_all=True judged with the same 4e-6 Å. "
+        "HUB stream (f, judged like e): DISTINCT occurrences that SHARE an atom the substitution keeps: 1–2 hub atoms with 2–4 arms, "
+        "each arm an exact rigid image of A = hub + 1 or 2 arm atoms (one occurrence per arm), the hub listed first / last / anywhere "
+        "in the pattern; B = A with one arm atom substituted by an absent element (in place or moved 0.125–0.375 Å outwards on its "
+        "bond); ground truth (occurrences = planted arms, before and after the substitution) confirmed by a brute-force distance "
+        "enumeration with margin 4·atol+0.05 Å in the generator; a quarter with replace_fraction < 1.")
 
 MOF = os.path.join(core.REPO, "")
 
@@ -834,6 +840,8 @@ def run(ctx, oracle_only=False):
         do_gone(ctx, gone_case(rng, ctx.tier), None)
     for _ in range(ctx.n(120, 2000)):
         do_exact(ctx, GX.make_exact_case(rng, ctx.tier), ops)
+    for _ in range(ctx.n(60, 800)):
+        do_exact(ctx, GH.make_hub_case(rng, ctx.tier), ops)
     # tagged stream (known finding): patterns that carry terms the structure lacks
     do_self_terms(ctx, canonical_self_terms_case(), ops)
     for _ in range(ctx.n(30, 400)):
@@ -870,6 +878,7 @@ def search(ctx):
             do_site(ctx, site_case(rng, "thorough"), None)
             do_gone(ctx, gone_case(rng, "thorough"), None)
             do_exact(ctx, GX.make_exact_case(rng, "thorough"), None)
+            do_exact(ctx, GH.make_hub_case(rng, "thorough"), None)
             if ctx.failures:
                 return
         do_mofs(ctx)
